@@ -596,9 +596,9 @@ PROPS = {
         "assumptions": ["msp_sequence within its contract (1<=P<=K, K>=4, 2K-P<=65535, reads < 2^32 bases, permutation injective of size 4^P: ShardCfg); hash-map orders are permutations (SigmasOK; the harness reads them back from the real maps); join predicates constantly true as in the crate's pipelines"],
     },
     "C06": {
-        "lean_modules": ["Dbg.Props.C06", "Dbg.Props.C06b"],
-        "theorems": ["Pipeline.C06_direct_rc_invariant", "Pipeline.C06_direct_payload_rc_invariant", "Pipeline.C06_sharded_rc_invariant", "Compress.krel_contentW", "Compress.C06_filter_rc_invariant", "Compress.C06_tables_agree", "Compress.C06_graph_rc_invariant", "Compress.C06_stranded_separation", "Compress.linkOf_congr", "Compress.C06_key_is_min", "Compress.C06_key_rc_invariant", "Compress.C06_flip_opposite", "Compress.C06_stranded_no_canon", "Compress.C06_unstranded_canon"],
-        "partial": ["the PARTITION of every pipeline variant (one-pass with any hash orders: C06_direct_rc_invariant; sharded / re-compressed, with or without sharded pruning: C06_sharded_rc_invariant) and the PAYLOADS of the one-pass pipeline (C06_direct_payload_rc_invariant; for the sharded pipeline via C04_payloads_agree) are proved invariant under reverse-complementing any subset of reads; adjacencies of the finished graphs are executable predicates on the crate's outputs for masked reverse-complemented read sets"],
+        "lean_modules": ["Dbg.Props.C06", "Dbg.Props.C06b", "Dbg.Props.C06c"],
+        "theorems": ["Pipeline.C06_direct_adjacency_rc_invariant", "Pipeline.adjK_occ", "Pipeline.occ_flip", "Pipeline.C06_direct_rc_invariant", "Pipeline.C06_direct_payload_rc_invariant", "Pipeline.C06_sharded_rc_invariant", "Compress.krel_contentW", "Compress.C06_filter_rc_invariant", "Compress.C06_tables_agree", "Compress.C06_graph_rc_invariant", "Compress.C06_stranded_separation", "Compress.linkOf_congr", "Compress.C06_key_is_min", "Compress.C06_key_rc_invariant", "Compress.C06_flip_opposite", "Compress.C06_stranded_no_canon", "Compress.C06_unstranded_canon"],
+        "partial": [],
         "n_quick": 1200, "n_thorough": 50000,
         "nontrivial": lambda toks, impl: impl != "panic" and toks[5] != "-" and toks[6].count(",") >= 1, "tags": _c06_tags, "shrink": _reads_shrink(6),
         "rule": "requests `rcsym K stranded thr mask reads`: the crate builds the k-mer table and the direct, sharded and re-compressed graphs for the "
